@@ -279,6 +279,23 @@ func TestC02RandomHistories(t *testing.T) {
 				x := sent[rapid.IntRange(0, len(sent)-1).Draw(t, "which")]
 				deliver(x.dev, x.slot, x.b, "replay")
 			},
+			"forgedCopy": func(t *rapid.T) {
+				// a copy of an earlier datagram with another power value and the old
+				// signature: not a report of the device, so it counts for nothing -
+				// in particular it is no "second distinct report" that bans the slot
+				if len(sent) == 0 {
+					t.Skip("nothing sent yet")
+				}
+				x := sent[rapid.IntRange(0, len(sent)-1).Draw(t, "which")]
+				b := append([]byte(nil), x.b...)
+				b[8+rapid.IntRange(0, 7).Draw(t, "powerByte")] ^= byte(rapid.IntRange(1, 255).Draw(t, "xor"))
+				r, _ := ref.DecodeReport(b)
+				hist = append(hist, fmt.Sprintf("forged copy dev%d slot%d power=%d (old signature)", x.dev, x.slot, r.Power))
+				s.datagram(b, "forged copy")
+				ev.Eval(1)
+				ev.Label("c02:forged-copy-of-earlier-report")
+				check()
+			},
 		})
 		if nontrivial {
 			ev.NonTrivial(fmt.Sprintf("c02|hist|%v|%v", caps, hist))
